@@ -164,6 +164,13 @@ def _explore(chk, job, rng_seed):
     return r, behs, st, recs
 
 
+def exhaustive_all(chk, jobs, workers=3):
+    """Model checking only (no extraction): larger bounds, several workers, one configuration after the other.
+    job = (label, prelude, kinds, last height, items per block, rollbacks)"""
+    for label, prelude, kinds, maxh, maxitems, rb in jobs:
+        tlc_run(chk, "x-" + label, prelude, kinds, maxh, maxitems, rb, span=4, workers=workers, timeout=1500)
+
+
 def explore_all(chk, jobs, parallel=3):
     """Each job = one TLC run that is both the exhaustive check of the invariants and the extraction of one
     behaviour per explored edge, followed by the replay on the real code.  Jobs run side by side."""
